@@ -53,6 +53,7 @@ type vaCmd struct {
 	ShortWrite  int    `json:"short_write,omitempty"`   // failing write accepts this many bytes first
 	WriteErrno  string `json:"write_errno,omitempty"`   // the failing write returns this errno (EAGAIN EINTR ENOSPC EPIPE EIO) instead of the marker error
 	WriteOnce   bool   `json:"write_once,omitempty"`    // only that one Write call fails, later calls succeed (a transient condition)
+	FileSink    bool   `json:"file_sink,omitempty"`     // the output is a regular file (seekable, truncatable) whose Write calls fail as configured; "accepted" is then what the FILE holds afterwards
 	// atlas
 	BaseURL string   `json:"base_url,omitempty"`
 	Pub     string   `json:"pub,omitempty"`
@@ -164,6 +165,21 @@ func (w *vaRecWriter) Write(p []byte) (int, error) {
 	}
 	w.accepted.Write(p)
 	return len(p), nil
+}
+
+// vaFileSink is a regular file (so the program sees Seek / Truncate / Sync / Stat) whose Write calls go
+// through the fault-injecting recorder first: what the recorder accepts is written to the file.
+type vaFileSink struct {
+	*os.File
+	rec *vaRecWriter
+}
+
+func (s *vaFileSink) Write(p []byte) (int, error) {
+	n, err := s.rec.Write(p)
+	if n > 0 {
+		s.File.Write(p[:n])
+	}
+	return n, err
 }
 
 type vaMockFR struct {
@@ -302,10 +318,20 @@ func vaRun(c *vaCmd) (res map[string]any) {
 		r := &vaFailReader{data: data, chunk: c.Chunk, failAt: c.FailReadAt, failOff: c.FailReadOff, mode: c.FailMode}
 		w := &vaRecWriter{failAt: c.FailWriteAt, short: c.ShortWrite, errno: c.WriteErrno, once: c.WriteOnce}
 		var err error
+		var sink io.Writer = w
+		var sinkFile *os.File
+		if c.FileSink {
+			if f, ferr := os.CreateTemp("", "verif-sink-*.log"); ferr == nil {
+				sinkFile = f
+				sink = &vaFileSink{File: f, rec: w}
+				defer os.Remove(f.Name())
+				defer f.Close()
+			}
+		}
 		if c.Gzip {
-			err = ProcessMongoLogFile(&vaMockFR{r: r, ext: ".gz"}, "mock.log.gz", w, nil)
+			err = ProcessMongoLogFile(&vaMockFR{r: r, ext: ".gz"}, "mock.log.gz", sink, nil)
 		} else {
-			err = ProcessMongoLogFileFromReader(r, w, nil)
+			err = ProcessMongoLogFileFromReader(r, sink, nil)
 		}
 		if err != nil {
 			res["err"] = err.Error()
@@ -316,6 +342,13 @@ func vaRun(c *vaCmd) (res map[string]any) {
 		}
 		res["writes"] = calls
 		res["accepted"] = vaB64(w.accepted.Bytes())
+		if sinkFile != nil {
+			// what the regular file holds after the run (the program may have cut it back)
+			if b, rerr := os.ReadFile(sinkFile.Name()); rerr == nil {
+				res["sink_took"] = vaB64(w.accepted.Bytes())
+				res["accepted"] = vaB64(b)
+			}
+		}
 		res["writes_after_failure"] = w.after
 		res["read_calls"] = r.calls
 		res["read_delivered"] = r.delivered
